@@ -37,6 +37,7 @@ def run(ctx, pid, prop_mods, oracles, progs, rule, trusted=(), assumptions=(), p
     if not okb:
         C.violation(ctx, "harness-build-failed", {"log": log[-3000:]}, no_input=True)
         return C.finish(ctx, trusted=C.TRUSTED_COMMON)
+    progs = C.uniq(progs)
     ctx.log(f"{len(progs)} programs")
     recs, stats = SP.run(ctx, progs, tag=pid.lower())
     failures, nontriv, nchecked = [], 0, 0
